@@ -5,6 +5,7 @@ import (
 	"encoding/json"
 	"fmt"
 	"os"
+	"os/exec"
 	"path/filepath"
 	"sort"
 	"strconv"
@@ -325,6 +326,9 @@ func mainCheck(args []string) int {
 		for k := range x.pureExt {
 			pureExt[k] = true
 		}
+		for k := range x.detExt {
+			trusted["deterministic external function (uninterpreted): "+k] = true
+		}
 		for k := range x.globalsRead {
 			assumptions["package-level variable "+k+" treated as an unconstrained constant"] = true
 		}
@@ -444,20 +448,20 @@ func mainCheck(args []string) int {
 	}
 	cov := map[string]any{
 		"obligations": total, "discharged": discharged,
-		"checker_cmd":               fmt.Sprintf("./check %s %s", id, tier),
-		"trusted_base":              tb,
-		"samples":                   samples,
-		"functions_under_contract":  funcsUnder,
-		"obligation_results":        evObls,
-		"solver_time_s":             float64(solverMs) / 1000,
-		"covers":                    covers,
-		"min_obligations":           suite.MinObls,
-		"unverified_surroundings":   suite.Unverified,
-		"bounded":                   suite.Bounded,
-		"pure_externals_havoced":    sortedKeys(pureExt),
-		"contract_files":            C.Files,
-		"tier_timeout_s":            opts.timeoutS,
-		"two_solver_agreement":      opts.all,
+		"checker_cmd":              fmt.Sprintf("./check %s %s", id, tier),
+		"trusted_base":             tb,
+		"samples":                  samples,
+		"functions_under_contract": funcsUnder,
+		"obligation_results":       evObls,
+		"solver_time_s":            float64(solverMs) / 1000,
+		"covers":                   covers,
+		"min_obligations":          suite.MinObls,
+		"unverified_surroundings":  suite.Unverified,
+		"bounded":                  suite.Bounded,
+		"pure_externals_havoced":   sortedKeys(pureExt),
+		"contract_files":           C.Files,
+		"tier_timeout_s":           opts.timeoutS,
+		"two_solver_agreement":     opts.all,
 	}
 	ev := map[string]any{"property_id": id, "tier": tier, "seed": seed, "level": "proof", "coverage": cov, "assumptions": assume,
 		"wall_s": time.Since(t0).Seconds(), "violations": violations}
@@ -547,6 +551,12 @@ func mainVC(args []string) int {
 		fmt.Printf("%-12s %-10s %5dms %s  [%s]\n", it.o.Result, it.o.Solver, it.o.Millis, it.o.Name, it.o.Where)
 		if it.o.Result != "unsat" {
 			fmt.Printf("    clause: %s\n    smt: %s\n", it.o.Src, it.o.SMTFile)
+		}
+		if it.o.Result == "sat" && os.Getenv("GOVC_MODEL") != "" {
+			mf := it.o.SMTFile + ".model.smt2"
+			os.WriteFile(mf, []byte(it.x.query(it.o, true)), 0o644)
+			out, _ := exec.Command("z3-new", "-smt2", "-T:10", mf).CombinedOutput()
+			fmt.Println(trunc(string(out), 6000))
 		}
 	}
 	return 0
